@@ -33,11 +33,11 @@ def run(ctx):
     ctx.rule('C05.f-no-hidden-inputs', 'no reachable function reads a non-table static, a thread-local or a nondeterminism source')
     for cfg in cfgs:
         facts = ctx.facts(cfg)
-        resetrules.check_reset_discipline(ctx, facts, cfg, 'C05.b-drop-resets', 'C05.b-implicit-reset-clears', 'C05.a-explicit-reset')
-        ifft_rule(ctx, facts, cfg)
-        tiling_rule(ctx, facts, cfg)
-        handover_rule(ctx, facts, cfg)
-        hidden_inputs(ctx, facts, cfg)
+        ctx.guard('C05.analysable', resetrules.check_reset_discipline, ctx, facts, cfg, 'C05.b-drop-resets', 'C05.b-implicit-reset-clears', 'C05.a-explicit-reset')
+        ctx.guard('C05.analysable', ifft_rule, ctx, facts, cfg)
+        ctx.guard('C05.analysable', tiling_rule, ctx, facts, cfg)
+        ctx.guard('C05.analysable', handover_rule, ctx, facts, cfg)
+        ctx.guard('C05.analysable', hidden_inputs, ctx, facts, cfg)
 
 
 # ------------------------------------------------------------------ linear normal form
